@@ -2,7 +2,7 @@
 // Needs lib/prelude.rs, lib/shift_bv.rs, lib/div_word_lemmas.rs, lib/sign.rs, lib/repr_stubs.rs, lib/dispatch_lemmas.rs.
 //
 // TRUSTED (unchecked assumptions, listed in the evidence):
-//  * root::sqrt_rem (integer/src/root.rs, Karatsuba square root: NOT verified here; bounded Kani group gcdo_root checks this
+//  * root::sqrt_rem (integer/src/root.rs, Karatsuba square root: proved in unit int_root_sqrt, seen here via //@@ SIG; bounded Kani group gcdo_root also checks this
 //    very statement on 4/6/8-word inputs): for a 2n-word input `a` whose top two bits are not both zero and an n-word
 //    `b`:  value(a) == s^2 + r, r <= 2*s  with s = value(b'), r = value(a'[..n]) + carry * B^n; a'[n..] is scratch.
 //  * root::memory_requirement_sqrt_rem: opaque Layout (sizing not verified); MemoryAllocation / Memory opaque.
@@ -35,15 +35,8 @@ use super::*;
 #[verifier::external_body]
 pub fn memory_requirement_sqrt_rem(n: usize) -> (r: Layout) { unimplemented!() }
 
-#[verifier::external_body]
-pub fn sqrt_rem(b: &mut [Word], a: &mut [Word], memory: &mut Memory) -> (ret: bool)
-    requires old(a)@.len() == 2 * old(b)@.len(), old(b)@.len() >= 2,                 // own debug assertions
-        old(a)@[old(a)@.len() - 1] as int >= B() / 4,       // "a is normalized": the top two bits are not both zero
-    ensures final(a)@.len() == old(a)@.len(), final(b)@.len() == old(b)@.len(),
-        val(old(a)@) == val(final(b)@) * val(final(b)@)
-            + (val(final(a)@.subrange(0, old(b)@.len() as int)) + b2i(ret) * pw(old(b)@.len() as int)),
-        val(final(a)@.subrange(0, old(b)@.len() as int)) + b2i(ret) * pw(old(b)@.len() as int) <= 2 * val(final(b)@),
-{ unimplemented!() }
+// root::sqrt_rem: PROVED in unit int_root_sqrt (one source of truth: the contract comes from its annotated copy)
+//@@ SIG integer/mul_algos/sqrt_rem.rs
 }
 
 /// C12: s is the square root of v truncated toward zero and r the remainder v - s^2
